@@ -17,30 +17,37 @@ def c03(tier, seed):
     ns = [2, 9, 16] if tier == "quick" else list(range(1, 17))
     spec = units_path.bitfield_spec(ns)
     obs, cmd, prep = units_path.run_spec(spec, timeout=3000 if tier == "quick" else 7200)
+    vo, vcmd, vlog, _ = units_verus.run_unit("bf_alloc")
+    obs += vo
+    cmd = cmd + " ; " + vcmd
+    prep = dict(prep, bf_alloc_unit=[dict(l, unit="bf_alloc") for l in vlog])
     meta = {
         "checker_cmd": cmd,
         "trusted_base": GLOBAL_TRUST + [
             "reference model: storage [u8;N] as little-endian u128 (N<=16), field = (X>>off)&mask, store = splice (kani_path/src/bitfield_contracts.rs)",
             "rule L1 (engine/lift.py): const generics BIT_OFFSET/BIT_WIDTH lifted to value parameters, bodies byte-identical (checked per run)",
             "kani::Arbitrary for __BindgenBitfieldUnit<[u8;N]> = arbitrary storage bytes (needed by stub_verified havoc)",
+            "unit bf_alloc: generics instantiated (R12: I = Vec<RawField>, E = FieldSink), `for` over a by-value Vec desugared to a cursor (R13, 3 trusted env functions), `assert!(ctx.collected_typerefs())` taken as precondition (R2), a type annotation on `vec![]` (R14); env RawField/Bitfield/BitfieldUnit/Field carry only the data the function touches",
+            "ABI rule placed_ok transcribed from the Itanium C++ ABI / SysV psABI bit-field text; bit-field base types have alignment in {1,2,4,8,16}, size <= 16 and width <= 8*size (C11 6.7.2.1)",
         ],
         "functions_under_contract": [
             "bindgen/codegen/bitfield_unit.rs: get, set, raw_get, raw_set, get_bit, set_bit, raw_get_bit, raw_set_bit, extract_bit, change_bit (via callers), get_const, set_const, raw_get_const, raw_set_const",
+            "bindgen/ir/comp.rs: bitfields_to_allocation_units (+ nested flush_allocation_unit) in the mode where libclang gives no field offsets (class templates): every emitted bit-field satisfies the ABI placement rule, fields keep their order without overlap, and offset_into_unit + width <= 8 * unit size = the accessors' precondition",
         ],
         "extraction": [prep],
         "assumptions": [
-            "preconditions = the functions' own debug_assert!s (bit_width<=64, bit_offset/8 < len, (off+w+7)/8 <= len); that bitfields_to_allocation_units (ir/comp.rs) establishes them is NOT verified",
+            "preconditions = the functions' own debug_assert!s (bit_width<=64, bit_offset/8 < len, (off+w+7)/8 <= len); bitfields_to_allocation_units is proved to establish offset+width <= 8*size in the no-clang-offset mode; in the clang-offset mode (plain C structs) it relies on libclang's offsets being increasing and already ABI-placed (unverified)",
             "region split: contracts are claimed on (bit_offset%8)+bit_width <= 64; the complement is known finding F1 (witness harnesses)",
             "complete for N in the listed set: all inputs kani::any(); loops bounded by operand width (<=9 iterations) with unwinding assertions on (unwind 18)",
             "storage sizes checked this run: N in %r (quick: subset; thorough: 1..=16); units longer than 16 bytes are not covered" % ns,
         ],
         "unverified": [
-            "ir/comp.rs bitfields_to_allocation_units (unit allocation from clang offsets)",
+            "ir/comp.rs bitfields_to_allocation_units in the clang-offset mode; raw_fields_to_fields_and_bitfield_units (grouping of consecutive bit-fields)",
             "codegen/mod.rs accessor emission: cast chain, transmute, sign extension of signed bit-fields",
             "big-endian branches; 32-bit usize fast path",
         ],
     }
-    return finish("C03", tier, seed, obs, meta, t0, replay_fn=units_path.replay("C03"))
+    return finish("C03", tier, seed, obs, meta, t0, replay_fn=_replay("C03"))
 
 
 def c14(tier, seed):
@@ -151,10 +158,11 @@ def _from_str_witnesses():
 
 
 def c12(tier, seed):
-    units = [("layout", None, r"^(safety|decreases.*)$")]
+    units = [("layout", None, r"^(safety|decreases.*)$"), ("bf_alloc", None, r"^(safety|decreases.*)$"), ("macro_type", None, r"^safety$"),
+             ("edges", None, r"^safety$"), ("derive_gate", None, r"^safety$"), ("derives", None, r"^safety$"), ("fn_abi", None, r"^safety$")]
     return _verus_prop("C12", tier, seed, units, {
         "trusted_base": LAYOUT_TRUST + ["alloc::fmt::format stubbed in the from_str witness harnesses (message text irrelevant)"],
-        "functions_under_contract": LAYOUT_FNS,
+        "functions_under_contract": LAYOUT_FNS + ["bindgen/ir/comp.rs: bitfields_to_allocation_units (no-clang-offset mode)", "and the functions of units macro_type, edges, derive_gate, derives, fn_abi (see C05, C07-C09, C14)"],
         "assumptions": [
             "panic-freedom (no arithmetic overflow/underflow, division by zero, unwrap on None, failed precondition of a callee) and loop termination of the functions under contract, under the preconditions inv() && small() && valid_layout(..)",
             "RustTarget::from_str: three concrete-input witness harnesses only (bounded, not counted as proved)",
